@@ -7,6 +7,9 @@
 (* The assembly history is replayed through the actions Load / Densify of DistChunks.                *)
 EXTENDS DistChunks, TraceLib
 
+CONSTANT Strict   \* TRUE: the chunk boundaries, the order of entries in chunk files and in the combined matrix are those of DistChunks.tla
+                  \*       (conformance of the transcription; reported as drift)
+                  \* FALSE: what C07 states, on the chunks the real function returned (the verdict)
 VARIABLES tid, l
 tvars == <<vars, tid, l>>
 
@@ -19,10 +22,21 @@ TInit == /\ tid \in 1..Len(Traces) /\ l = 1
          /\ n = Traces[tid].n /\ k = Traces[tid].k
          /\ acc = << >> /\ order = << >> /\ result = [kind |-> "none", m |-> << >>]
 
+SetOfSeq(q) == {q[x] : x \in 1..Len(q)}
+AllPairs == {<<i, j>> \in (0..n - 1) \X (0..n - 1) : i > j}
+\* the clauses of C07 about the index chunks, on the chunks the real function returned
+RelChunks(ch) ==
+    /\ Check(tid, 1, "C07:one-chunk-per-index", Len(ch) = k)
+    /\ Check(tid, 1, "C07:chunks-hold-pairs-i>j-in-range", \A c \in 1..Len(ch) : \A x \in 1..Len(ch[c]) : <<ch[c][x][1], ch[c][x][2]>> \in AllPairs)
+    /\ Check(tid, 1, "C07:chunks-pairwise-disjoint-without-repeats",
+             /\ \A c \in 1..Len(ch) : Cardinality(SetOfSeq(ch[c])) = Len(ch[c])
+             /\ \A c, d \in 1..Len(ch) : c # d => SetOfSeq(ch[c]) \cap SetOfSeq(ch[d]) = {})
+    /\ Check(tid, 1, "C07:chunks-cover-every-pair", UNION {{<<p[1], p[2]>> : p \in SetOfSeq(ch[c])} : c \in 1..Len(ch)} = AllPairs)
+    /\ Check(tid, 1, "C07:chunk-sizes-differ-by-at-most-one", \A c, d \in 1..Len(ch) : Len(ch[c]) - Len(ch[d]) \in {-1, 0, 1})
 ChunksOk ==
-    /\ Check(tid, 1, "chunk-count", Len(T.chunks) = k)
-    /\ Check(tid, 1, "chunks-equal-spec", \A c \in 0..k - 1 : T.chunks[c + 1] = Chunk(n, k, c))
-    /\ Check(tid, 1, "arith-properties", ArithOK)
+    /\ RelChunks(T.chunks)
+    /\ (Strict => /\ Check(tid, 1, "chunks-equal-spec", \A c \in 0..k - 1 : T.chunks[c + 1] = Chunk(n, k, c))
+                  /\ Check(tid, 1, "arith-properties", ArithOK))
 
 MetricOk ==
     /\ Check(tid, 1, "metric-symmetric-bitwise", T.dab = T.dba)
@@ -33,7 +47,25 @@ OneShot == /\ T.kind \in {"chunks", "metric"} /\ l = 1 /\ l' = 2
            /\ IF T.kind = "chunks" THEN ChunksOk ELSE MetricOk
            /\ UNCHANGED vars /\ UNCHANGED tid
 
-TLoad == /\ T.kind = "assembly" /\ l <= Len(T.events) /\ Ev.ev = "load"
+\* relational replay of an assembly history: acc collects the entries <<i, j, value token>> of the files combined so far
+RLoad == /\ ~Strict /\ T.kind = "assembly" /\ l <= Len(T.events) /\ Ev.ev = "load"
+         /\ (l = 1 => RelChunks(T.chunks))
+         /\ Check(tid, l, "C07:chunk-file-holds-exactly-the-pairs-of-its-chunk",
+                  /\ Len(Ev.file) = Len(T.chunks[Ev.c + 1])
+                  /\ {<<Ev.file[x][1], Ev.file[x][2]>> : x \in 1..Len(Ev.file)} = {<<p[1], p[2]>> : p \in SetOfSeq(T.chunks[Ev.c + 1])})
+         /\ Check(tid, l, "C07:entry-is-the-metric-of-the-two-samples'-predictions", \A x \in 1..Len(Ev.file) : Ev.file[x][3] = M(Ev.file[x][1], Ev.file[x][2]))
+         /\ acc' = acc \o Ev.file
+         /\ Check(tid, l, "C07:combined-matrix-holds-what-the-files-held",
+                  {<<Ev.acc[x][1], Ev.acc[x][2], Ev.acc[x][3]>> : x \in 1..Len(Ev.acc)} = {<<acc'[x][1], acc'[x][2], acc'[x][3]>> : x \in 1..Len(acc')})
+         /\ l' = l + 1 /\ UNCHANGED <<n, k, order, result, tid>>
+RDensify == /\ ~Strict /\ T.kind = "assembly" /\ l <= Len(T.events) /\ Ev.ev = "densify"
+            /\ LET have == {<<acc[x][1], acc[x][2]>> : x \in 1..Len(acc)} IN
+               /\ Check(tid, l, "C07:refuses-iff-some-pair-is-missing", Ev.refused = (have # AllPairs))
+               /\ (~Ev.refused => Check(tid, l, "C07:complete-symmetric-zero-diagonal-matrix-of-the-metric",
+                       Ev.dense = [r \in 1..n |-> [c \in 1..n |-> IF r = c THEN 0 ELSE IF r > c THEN M(r - 1, c - 1) ELSE M(c - 1, r - 1)]]))
+            /\ l' = l + 1 /\ UNCHANGED <<vars, tid>>
+
+TLoad == /\ Strict /\ T.kind = "assembly" /\ l <= Len(T.events) /\ Ev.ev = "load"
          /\ Check(tid, l, "chunk-file-equals-spec-chunk",
                   Ev.file = [x \in 1..Len(Chunk(n, k, Ev.c)) |->
                                <<Chunk(n, k, Ev.c)[x][1], Chunk(n, k, Ev.c)[x][2],
@@ -43,7 +75,7 @@ TLoad == /\ T.kind = "assembly" /\ l <= Len(T.events) /\ Ev.ev = "load"
                   Ev.acc = [x \in 1..Len(acc') |-> <<acc'[x][1], acc'[x][2], Map(acc'[x][3])>>])
          /\ l' = l + 1 /\ UNCHANGED tid
 
-TDensify == /\ T.kind = "assembly" /\ l <= Len(T.events) /\ Ev.ev = "densify"
+TDensify == /\ Strict /\ T.kind = "assembly" /\ l <= Len(T.events) /\ Ev.ev = "densify"
             /\ Densify
             /\ Check(tid, l, "refusal-iff-incomplete", Ev.refused = (result'.kind = "refused"))
             /\ (result'.kind = "dense" =>
@@ -53,5 +85,5 @@ TDensify == /\ T.kind = "assembly" /\ l <= Len(T.events) /\ Ev.ev = "densify"
 TDone == /\ l = (IF T.kind = "assembly" THEN Len(T.events) + 1 ELSE 2)
          /\ Accept(tid) /\ UNCHANGED tvars
 
-TNext == OneShot \/ TLoad \/ TDensify \/ TDone
+TNext == OneShot \/ TLoad \/ TDensify \/ RLoad \/ RDensify \/ TDone
 =============================================================================
